@@ -235,5 +235,155 @@ PROPS["C09"] = {
     "technique": "randomised concurrent workloads; Go race detector + porcupine linearizability check against the C08 reference model + quiescence accounting",
 }
 
+PROPS["C13"] = {
+    "legs": [plain("exh", "pmdiff", "TestC13Exhaustive", solo=True),
+             rapid("rand", "pmdiff", "TestC13Rand", 4, 3000, 16, 30000)],
+    "rule": "leg exh: every pair (Left, Right) of line sequences over {a,b,c} with both lengths <=5 (quick) / <=6 "
+            "(thorough), each with every context size n in {0,1,2,3,4,50}; leg rand: pairs of up to ~45 lines derived from "
+            "a common base by per-line delete/replace/insert mutations over alphabets of 2-5 lines (so lines repeat), n "
+            "in {-1,0,1,2,3,5,8,50}. For each case, after New, after AddContext(n) and after Unify: every chunk's edits "
+            "are executed and must consume exactly Left[LStart,LEnd) and produce exactly Right[RStart,REnd) with ranges "
+            "in bounds; after New and after Unify the chunks must be ascending and disjoint on both sides (after Unify "
+            "also not adjacent) and splicing each chunk's output over its left range must turn Left into Right; after "
+            "AddContext each chunk must be New's chunk plus at most n context lines before and after, as single Emit "
+            "edits, with the original edits unchanged in between; every unified chunk covers a run of original chunks "
+            "and extends at most n lines beyond it; Diff.Edits (a full script from Left to Right), Left and Right must "
+            "equal snapshots taken after New. NON-TRIVIAL iff the diff has >=2 chunks whose gap is smaller than 2n "
+            "(contexts meet or overlap), n>0, and an input has a repeated line. Distinct: by construction (exh) / hash "
+            "of the case JSON (rand).",
+    "assumptions": COMMON_ASSUME,
+    "technique": "small-scope exhaustive enumeration + property-based testing (rapid) with an executable patch-application oracle",
+}
+
+PROPS["C18"] = {
+    "legs": [plain("exh", "pmapset", "TestC18Exhaustive"),
+             rapid("hist", "pmapset", "TestC18Hist", 4, 25000, 16, 500000)],
+    "rule": "A case is a history over four set variables (JSON: initial values as element lists, null = the nil set, "
+            "[] = empty non-nil; ops with plain integer arguments).  One interpreter serves both legs: the reference "
+            "of every variable is a strictly ascending slice of ints (never a Go map); after EVERY step every "
+            "variable is compared with its reference through Len, IsEmpty, Has(-1..8 and the probe element), Slice "
+            "(sorted copy must equal the reference: each member exactly once) and Append([-7 -8]) with spare capacity "
+            "0/1x/2x (prefix preserved, then each member exactly once); results of Intersects/IsSubset/Equals/HasAll/"
+            "HasAny are compared with the set-theoretic answers; Pop must return a member that was present and remove "
+            "only it (zero value and no change on an empty set); New/Clone/Intersect/Keys/Values/Range must return "
+            "non-nil, and after each of them (and after AddAll) aliasing is detected behaviourally: the element 99 is "
+            "written directly into the result map and must not appear in any other variable, and written into every "
+            "other non-nil variable and must not appear in the result; Keys is also called on a set variable's own "
+            "map (U = struct{}), Keys/Values on nil maps, argument maps/slices must be unchanged.  For Intersect() of "
+            "no sets only non-nil-ness is demanded.  leg exh: EVERY one-operation history over the universe {0,1,2} "
+            "(thorough {0,1,2,3}): 9 (17) set values = nil + all subsets; all ordered pairs plus the same variable on "
+            "both sides for Intersects/IsSubset/Equals/AddAll/RemoveAll; every Intersect argument list of length <= 3 "
+            "(thorough 4), also assigned over its first operand; every item list of length <= 3 (4) x every receiver "
+            "for HasAll/HasAny/Add/Remove; the same lists for New/Keys/Values/Range; Clone/Keys/Range of every value "
+            "into another and into the same variable; Clear, Pop, and a drain by Pop with one Pop too many; "
+            "enumerated in size order.  NON-TRIVIAL (exh) iff the operation is binary (two sets, or receiver and item "
+            "list) and its operands differ in size or one of them is nil/empty.  leg hist: rapid draws 3 initial values "
+            "(nil 25%, empty 12%, else 1..6 distinct elements of 0..5) and <= 40 ops among add, addall, remove, "
+            "removeall, pop, clear, setnil, clone, new, intersect (0..4 operands), keys (own map / built map / nil "
+            "map), values, range, and the five predicates, with items from 0..5 (sometimes 0..7) and operands that "
+            "may be the same variable; three quarters of the histories get a binary operation spliced in in both "
+            "operand orders.  NON-TRIVIAL (hist) iff the history contains BOTH a binary operation on non-empty "
+            "operands of different sizes AND a binary operation with a nil or empty operand.  The classes histogram "
+            "counts, per case, receiver_larger / receiver_smaller / nil operand / add on nil receiver / self operand / "
+            "pop on empty and non-empty / constructor alias probes and every op kind.  Distinct = distinct canonical "
+            "JSON of the case (64-bit hash), unioned over shards.",
+    "assumptions": COMMON_ASSUME + [
+        "element type int only; the generic code has no type-dependent branch",
+        "writing to the underlying map directly (documented as allowed) is used for the aliasing probe",
+    ],
+}
+
+PROPS["C19"] = {
+    "legs": [rapid("det", "pdistinct", "TestC19Det", 4, 20000, 16, 300000),
+             plain("stat", "pdistinct", "TestC19Stat", solo=True, shards={"quick": 1, "thorough": 4})],
+    "rule": "The counter seeds itself from crypto/rand, so no run is bit-reproducible; the deterministic clauses hold "
+            "with probability 1 and are checked on every run, the unbiasedness clause is statistical.  leg det: a case "
+            "is (size, reps, ops) with ops[i] >= 0 = Add(value) and -1 = Reset; size from {2,3,4,8,16,64} (75%) or "
+            "uniform 2..256; a third of the streams are drawn element by element (<= 300 ops over a domain of <= "
+            "6*size values, Reset with probability 1/40), the others are expanded from a drawn descriptor into the "
+            "explicit list: d distinct values with d below the size, at size-1..size+1, in (size, 4*size], in "
+            "[4*size, 20*size] or in [20*size, 40*size], each value repeated 1..k times (k <= 4) uniformly "
+            "interleaved / in rounds (repeats far apart) / adjacent, 0..2 Resets at drawn positions and optionally a "
+            "second stream after a final Reset.  The stream is fed to reps (1..32) independent fresh counters.  After "
+            "EVERY Add: Len <= size; if Len > 0 Count is a multiple of Len and Count/Len is a power of two >= the "
+            "previous one since the last Reset; if Len == 0 Count == 0; while fewer than `size` distinct values were "
+            "added since the last Reset, Count == Len == the exact distinct count (reference: a bitmap of seen "
+            "values); after Reset Len == Count == 0 and the exact regime holds again.  NON-TRIVIAL (det) iff some "
+            "value is re-added after the buffer has filled (>= 1 halving) since the last Reset.  leg stat: per run 12 "
+            "streams (per shard; thorough 4 shards): each size in {2,3,4,8,16,64} once near capacity (d = size-1, "
+            "size, size+1 or 2*size) and once far above it (d = 5, 10, 20 or 40 times the size), each value repeated "
+            "1..k times (k in {1,2,3,4,5}, rotated) in one of the three interleavings; R = 4000 (thorough 40000) "
+            "independent counters per stream on all cores; mean of Count at the end of the stream and after the first "
+            "half against the exact distinct count of that prefix.  Band: if all R counts agree (s == 0, e.g. below "
+            "capacity) the mean must equal d exactly; otherwise -L*s/sqrt(R) <= mean - d <= 8*s/sqrt(R) with s the "
+            "sample standard deviation and L = 8 for size >= 8.  Count = Len*2^k has a power-law tail of index `size` "
+            "(a halving pass that removes nothing, probability 2^-size, is repeated), so for sizes 2, 3, 4 its "
+            "variance / skewness / kurtosis are infinite: the Student statistic then has a lighter-than-normal upper "
+            "tail but a heavier lower tail (simulated on the unchanged tree, 20 000..400 000 replicates of the whole "
+            "experiment: like N(0,1.41^2) for size 2, N(0,1.16^2) for size 3, N(0,1.07^2) for size 4; P(t < -8) "
+            "would be about 1e-9 for size 2), therefore L = 16 for sizes 2..3 and L = 12 for sizes 4..7.  For size "
+            ">= 8 measured skewness <= 1.5 and kurtosis <= 9 (200 000 counters per stream), so an 8-s.e. excursion has "
+            "probability < 1e-13 per checkpoint; 24 checkpoints per run (96 in the thorough tier) stay far below "
+            "1e-9 per run.  If several streams fail, the one that is off by the most standard errors is reported.  "
+            "NON-TRIVIAL (stat) iff the stream has repeats and more distinct values than the buffer size.  A replay of "
+            "a stat case re-runs its R counters with fresh entropy (a real bias fails again; not bit-reproducible); a "
+            "replay of a det case re-runs its reps counters.  Distinct = distinct canonical JSON of the case (det, "
+            "64-bit hash, unioned over shards); the 12 stat streams of a shard are distinct by construction (size x "
+            "near/far).  evaluations counts streams; the class `counter_runs` counts the individual counters.",
+    "assumptions": COMMON_ASSUME + [
+        "crypto/rand and math/rand/v2 ChaCha8 deliver independent uniform bits (the statistical clause is a statement about the algorithm, not about the entropy source)",
+        "the false-alarm bound of the statistical leg for buffer sizes below 8 rests on simulation of the Student statistic out to the 1e-5 level and a normal-tail extrapolation with a safety factor of about 2 in standard deviations; it is not a proved bound",
+        "element type int only; more than 63 halvings (Count overflows uint64) are unreachable for these stream lengths",
+    ],
+}
+
+PROPS["C20"] = {
+    "legs": [plain("mbits", "pbytes", "TestC20Bits", solo=True),
+             plain("trunc", "pbytes", "TestC20Trunc"),
+             plain("natural", "pbytes", "TestC20Natural", solo=True),
+             rapid("naturalrand", "pbytes", "TestC20NaturalRand", 4, 50000, 16, 1000000)],
+    "rule": "leg mbits (exhaustive enumeration, case = data bytes in hex + address alignment): for every length "
+            "0..300 (thorough 0..1000) and every alignment 0..7 of the first byte's ADDRESS (sub-slice of one backing "
+            "array with >= 8 guard bytes on each side, the slice keeps the spare capacity so a stray write lands in a "
+            "guard): every zero/non-zero pattern for lengths <= 12 (16), with non-zero values rotating over "
+            "01/80/FF/10; for longer slices the all-zero slice, every single non-zero byte, every pair of non-zero "
+            "bytes for lengths <= 24 (40), and 4 (8) seeded random patterns per (length, alignment) of densities "
+            "1/32..1 with optional long zero head and tail.  Each input is run twice, with all surrounding memory "
+            "0x00 and 0xFF: LeadingZeroes and TrailingZeroes must equal the byte-by-byte counts (so the answer cannot "
+            "depend on memory outside the slice) and leave the whole backing array unchanged; Zero must return len, "
+            "zero exactly the slice and leave every guard byte unchanged; a panic is a violation.  NON-TRIVIAL iff "
+            "length >= 17 and some non-zero byte lies in neither the first nor the last 8-byte word.  leg trunc "
+            "(exhaustive): every string of <= 5 (7) runes over {a, e-acute, euro sign, U+1F600} (1-, 2-, 3-, 4-byte "
+            "encodings) plus 3000 (40000) seeded distinct INVALID byte strings of <= 12 bytes over lead, continuation "
+            "and illegal bytes, each with every n in [0, len+2]: result is a prefix of s, at most n bytes, s itself "
+            "when n >= len(s); when s is valid UTF-8 the result is valid and, if len(s) > n, at most 4 bytes shorter "
+            "than n (the last two clauses are demanded for valid s only).  NON-TRIVIAL iff n < len(s) and s[n] is a "
+            "continuation byte (the cut falls inside an encoding).  leg natural (exhaustive): all 1555 (9331) strings "
+            "of length <= 4 (5) over the alphabet `0 1 9 / : a` ('/' and ':' are the code points around the digits): "
+            "CompareNatural on every ordered pair must be in {-1,0,1}; must be 0 exactly when the strings are equal "
+            "after an independent tokeniser has stripped the leading zeros of every digit run (keeping one digit); "
+            "when the first token pair that differs after normalisation consists of two digit runs, the result must "
+            "be the sign of their comparison as math/big integers; result(a,b) == -result(b,a) on every pair; and "
+            "transitivity of <= on EVERY ordered triple, evaluated through 64-wide bitset rows of the <= matrix (for "
+            "all a <= b: {c : b <= c} must be a subset of {c : a <= c}; with antisymmetry this implies the strict "
+            "variants).  The unit of evaluations is the ordered triple (n^3); NON-TRIVIAL iff the triple contains two "
+            "different strings with the same normal form (counted exactly from the class sizes).  The doc comment's "
+            "prose about a lexicographic fallback is NOT asserted.  leg naturalrand (rapid): triples of strings of up "
+            "to 6 alternating tokens (digit runs of 1..17 significant digits with 0..4 leading zeros, separator runs "
+            "over `/:a-z .A_b`), the second and third string mostly mutations of another one (re-spelled number, one "
+            "digit changed, one digit longer/shorter, token replaced, tail cut, token appended) and in half of the "
+            "cases a pure re-spelling of leading zeros; the same clauses on all nine ordered pairs and all orderings "
+            "of the triple; a string with a run of more than 18 significant digits is outside the quantifier and "
+            "skipped (the generator never produces one).  Distinct: mbits/trunc/natural are distinct by construction "
+            "(seeded random extras are de-duplicated); naturalrand = distinct canonical JSON (64-bit hash) unioned "
+            "over shards.",
+    "assumptions": COMMON_ASSUME + [
+        "amd64: unaligned 64-bit loads/stores are legal; an out-of-slice READ is detected only when it changes the result (both guard values are tried), an out-of-slice WRITE only within the 8..15 guard bytes on each side",
+        "int is 64 bits; digit runs are limited to 17 significant digits in generated inputs",
+        "Trunc is claimed for n >= 0 only; for invalid UTF-8 only the encoding-independent clauses are demanded",
+    ],
+}
+
+
 # Properties deliberately not claimed (reason shown in MANIFEST.not_applicable).
 NOT_APPLICABLE = {}
